@@ -51,7 +51,7 @@ def run_project(srcdir: Path, files: dict, conf: dict | None = None, *, builder:
     (srcdir / "conf.py").write_text("\n".join(lines) + "\n" + conf_extra)
     out = srcdir / "_build"
     status, warning = io.StringIO(), io.StringIO()
-    res = {"ok": True, "error": None, "warnings": [], "doctrees": {}, "html": {}, "raw_warnings": ""}
+    res = {"ok": True, "error": None, "warnings": [], "doctrees": {}, "html": {}, "raw_warnings": "", "stash": {}}
     try:
         with docutils_namespace():
             app = Sphinx(str(srcdir), str(srcdir), str(out / builder), str(out / "doctrees"), builder,
@@ -64,6 +64,7 @@ def run_project(srcdir: Path, files: dict, conf: dict | None = None, *, builder:
                     except Exception as e:  # noqa: BLE001
                         res["ok"] = False
                         res["error"] = f"resolving {docname}: {type(e).__name__}: {e}"
+            res["stash"] = dict(getattr(app.env, "_verif_trees", {}))
             if want_html:
                 for docname in sorted(app.env.found_docs):
                     p = out / builder / (docname + ".html")
@@ -78,6 +79,27 @@ def run_project(srcdir: Path, files: dict, conf: dict | None = None, *, builder:
     if not keep:
         shutil.rmtree(out, ignore_errors=True)
     return res
+
+
+# conf.py fragment: keep a copy of every document as the parser returned it (before any transform)
+STASH_PARSED = """
+
+from docutils.transforms import Transform as _T
+
+
+class _VerifStash(_T):
+    default_priority = 1
+
+    def apply(self, **kw):
+        env = self.document.settings.env
+        if not hasattr(env, "_verif_trees"):
+            env._verif_trees = {}
+        env._verif_trees[env.docname] = self.document.deepcopy()
+
+
+def setup(app):
+    app.add_transform(_VerifStash)
+"""
 
 
 def run_docs(srcdir: Path, docs: dict, conf: dict | None = None, extra_files: dict | None = None, **kw):
